@@ -98,6 +98,8 @@ def run_case(case, layout_seed=None, snaps=True):
                 ev.append({"c": "Snap", "snap": snap})
     if case.get("rename"):
         rename_part(case, text, tree, objects, states, ev)
+    if case.get("edit"):
+        edit_part(case, text, tree, dom, objects, states, ev)
     for d in case.get("prints", []):
         ev.append(print_event(dom, d))
     for pr in case.get("big_probes", []):
@@ -146,6 +148,57 @@ def print_event(dom, digits):
                         "reparse_ok": ok, "texts": texts_pre + texts_eff}}
     except Exception as e:  # noqa: BLE001
         return {"c": "PrintExpr", "d": "d", "act": "act", "digits": actual, "out": {"exc": pylib.exc_name(e)}}
+
+
+def edit_part(case, text, tree, dom, objects, states, ev):
+    """further public surface: a shallow copy of the domain; on a second parse, a literal added to and then removed
+    from the action's precondition (CompoundPrecondition.add_condition / remove_condition), with the same calls
+    repeated after each edit"""
+    from pddl_plus_parser.lisp_parsers.parsing_utils import parse_untyped_predicate
+    try:
+        sc = dom.shallow_copy()
+        ev.append({"c": "ShallowCopy", "d": "d", "h": "dsc", "out": {"vocab": pylib.vocab(sc), "digest": domain_digest(sc)}})
+        # the copy is independent: editing it leaves the original alone (checked by the next snapshot)
+        for a in sc.actions.values():
+            a.signature["?extra"] = dom.types["object"]
+        sc.predicates.pop(next(iter(sc.predicates)), None)
+    except Exception as e:  # noqa: BLE001
+        ev.append({"c": "ShallowCopy", "d": "d", "h": "dsc", "out": {"exc": pylib.exc_name(e)}})
+    ev.append({"c": "Snap", "snap": {"d": domain_digest(dom)}})
+    lit = case["edit"]            # [positive, predicate, [terms]]
+    try:
+        dom2 = pylib.parse_domain_text(text)
+        ev.append({"c": "ParseDomain", "h": "de", "tree": tree, "out": {"vocab": pylib.vocab(dom2), "digest": domain_digest(dom2)}})
+    except Exception as e:  # noqa: BLE001
+        ev.append({"c": "ParseDomain", "h": "de", "tree": tree, "out": {"exc": pylib.exc_name(e)}})
+        return
+    act = dom2.actions["act"]
+
+    def replay(tag):
+        k = 0
+        for call in case["calls"]:
+            sh = f"s{call['s']}" if isinstance(call["s"], int) else call["s"]
+            if sh not in states or call["mode"] != "app":
+                continue
+            k += 1
+            ev.append({"c": "IsApplicable", "d": "de", "u": "u", "act": "act", "args": call["args"], "s": sh,
+                       "out": pylib.observe_applicable(dom2, "act", call["args"], objects, states[sh])})
+    try:
+        pred = parse_untyped_predicate([lit[1]] + list(lit[2]), act.signature, dom2.constants, is_positive=lit[0])
+        act.preconditions.add_condition(pred)
+        ev.append({"c": "AddLiteral", "d": "de", "act": "act", "lit": lit, "out": {"digest": domain_digest(dom2)}})
+    except Exception as e:  # noqa: BLE001
+        ev.append({"c": "AddLiteral", "d": "de", "act": "act", "lit": lit, "out": {"exc": pylib.exc_name(e)}})
+        return
+    replay("add")
+    try:
+        pred2 = parse_untyped_predicate([lit[1]] + list(lit[2]), act.signature, dom2.constants, is_positive=lit[0])
+        act.preconditions.remove_condition(pred2)
+        ev.append({"c": "RemoveLiteral", "d": "de", "act": "act", "lit": lit, "out": {"digest": domain_digest(dom2)}})
+    except Exception as e:  # noqa: BLE001
+        ev.append({"c": "RemoveLiteral", "d": "de", "act": "act", "lit": lit, "out": {"exc": pylib.exc_name(e)}})
+        return
+    replay("remove")
 
 
 def rename_part(case, text, tree, objects, states, ev):
